@@ -385,3 +385,46 @@ pub fn multiaddr_of(compressed_pubkey: &[u8], addr: &std::net::SocketAddr) -> St
     };
     format!("{ip}/udp/{}/p2p/{}", addr.port(), base58(&mh))
 }
+
+
+/// A tracing subscriber that is interested in everything and formats every field of every event
+/// into a scratch buffer: the crate's logging statements (their argument expressions and their
+/// Debug/Display implementations) run as they would under a subscriber at TRACE level. Installed
+/// process-wide in every second shard, so that each workload is seen with logging on and off.
+pub struct TraceSink;
+
+struct SinkVisitor<'a>(&'a mut String);
+
+impl tracing::field::Visit for SinkVisitor<'_> {
+    fn record_debug(&mut self, field: &tracing::field::Field, value: &dyn std::fmt::Debug) {
+        use std::fmt::Write;
+        self.0.clear();
+        let _ = write!(self.0, "{}={:?}", field.name(), value);
+    }
+}
+
+impl tracing::Subscriber for TraceSink {
+    fn enabled(&self, _: &tracing::Metadata<'_>) -> bool {
+        true
+    }
+    fn new_span(&self, attrs: &tracing::span::Attributes<'_>) -> tracing::span::Id {
+        let mut buf = String::new();
+        attrs.record(&mut SinkVisitor(&mut buf));
+        tracing::span::Id::from_u64(1)
+    }
+    fn record(&self, _: &tracing::span::Id, values: &tracing::span::Record<'_>) {
+        let mut buf = String::new();
+        values.record(&mut SinkVisitor(&mut buf));
+    }
+    fn record_follows_from(&self, _: &tracing::span::Id, _: &tracing::span::Id) {}
+    fn event(&self, event: &tracing::Event<'_>) {
+        let mut buf = String::new();
+        event.record(&mut SinkVisitor(&mut buf));
+    }
+    fn enter(&self, _: &tracing::span::Id) {}
+    fn exit(&self, _: &tracing::span::Id) {}
+}
+
+pub fn install_trace_sink() {
+    let _ = tracing::subscriber::set_global_default(TraceSink);
+}
